@@ -140,6 +140,20 @@ Fixpoint zlist_eqb (a b : list Z) : bool :=
   | _, _ => false
   end.
 
+(* no eligible pod with a larger request was passed over; when nothing
+   succeeded every eligible pod was tried *)
+Definition no_skip (res : Z) (pods : list pod) (calls : list (Z * bool)) : bool :=
+  forallb (fun p => if eligible p && negb (zmem (p_id p) (map fst calls))
+                    then match succeeded calls, rev calls with
+                         | _ :: _, lastc :: _ => req res p <=? call_req res pods lastc
+                         | _, _ => false
+                         end
+                    else true) pods.
+
+(* the population after a pass, recomputed from the calls alone *)
+Definition remove_succ (cs : list (Z * bool)) (pods : list pod) : list pod :=
+  filter (fun p => negb (zmem (p_id p) (succeeded cs))) pods.
+
 (* one pressure event on resource res (1 cpu, 2 memory): pods = the active pods
    before the event, calls = what reached the eviction client, after = the
    active pod ids after the event *)
@@ -153,14 +167,7 @@ Definition law_evict (res : Z) (pods : list pod) (calls : list (Z * bool)) (afte
     success_only_last calls && Nat.leb (length (succeeded calls)) 1 &&
     (* nobody else disappears: online and critical pods all stay *)
     zlist_eqb after (map p_id (filter (fun p => negb (zmem (p_id p) (succeeded calls))) pods)) &&
-    (* no eligible pod with a larger request was passed over; when nothing
-       succeeded every eligible pod was tried *)
-    forallb (fun p => if eligible p && negb (zmem (p_id p) (map fst calls))
-                      then match succeeded calls, rev calls with
-                           | _ :: _, lastc :: _ => req res p <=? call_req res pods lastc
-                           | _, _ => false
-                           end
-                      else true) pods
+    no_skip res pods calls
   else true.
 
 (* turning over-subscription off: per round the calls of the cpu pass and of the
@@ -168,14 +175,33 @@ Definition law_evict (res : Z) (pods : list pod) (calls : list (Z * bool)) (afte
 Definition flat_passes (passes : list (list (Z * bool) * list (Z * bool))) : list (Z * bool) :=
   flat_map (fun p => fst p ++ snd p) passes.
 
+(* one pass on the population it listed: only eligible pods, largest request
+   first, nothing after a success, NO larger eligible pod skipped; nothing at
+   all when the extend resource is not in use *)
 Definition pass_ok (res : Z) (pods : list pod) (calls : list (Z * bool)) : bool :=
-  descending (map (call_req res pods) calls) && success_only_last calls.
+  forallb (call_eligible pods) calls && nodupb (map fst calls) &&
+  descending (map (call_req res pods) calls) && success_only_last calls &&
+  (if use_extend res pods then no_skip res pods calls
+   else match calls with [] => true | _ => false end).
+
+Fixpoint passes_ok (pods : list pod) (passes : list (list (Z * bool) * list (Z * bool))) : bool :=
+  match passes with
+  | [] => true
+  | (c1, c2) :: r =>
+      pass_ok 1 pods c1 && pass_ok 2 (remove_succ c1 pods) c2 &&
+      passes_ok (remove_succ c2 (remove_succ c1 pods)) r
+  end.
 
 Definition law_cleanup (pods : list pod) (passes : list (list (Z * bool) * list (Z * bool))) (after : list Z) : bool :=
   let calls := flat_passes passes in
   if nodupb (map p_id pods) then
     forallb (call_eligible pods) calls &&
     nodupb (succeeded calls) &&
-    forallb (fun p => pass_ok 1 pods (fst p) && pass_ok 2 pods (snd p)) passes &&
+    passes_ok pods passes &&
     zlist_eqb after (map p_id (filter (fun p => negb (zmem (p_id p) (succeeded calls))) pods))
   else true.
+
+(* an event that must not evict (foreign resource, wrong event type, failed
+   node / pod read): nothing reaches the client and nobody disappears *)
+Definition law_no_eviction (pods : list pod) (calls : list (Z * bool)) (after : list Z) : bool :=
+  match calls with [] => zlist_eqb after (map p_id pods) | _ => false end.
